@@ -1,14 +1,52 @@
 import Tuc.Model.Main
-import Tuc.Props.EndToEnd
+import Tuc.Lemmas.MainLevel
 import Tuc.Props.C04
 import Tuc.Props.C10
 import Tuc.Props.C10Stream
 import Tuc.Props.C11
 import Tuc.Props.C12
 import Tuc.Props.C14
-import Tuc.Props.C16
 import Tuc.Props.C18
 import Tuc.Props.C19Argv
+/-!
+# Main level — the engine-level properties lifted to the whole program `tucMain`
+
+`tucMain regexOk argv segs : MainResult` (`Tuc.Model.Main`) is `main` of `src/bin/tuc.rs` from the
+argument vector to the bytes on stdout and the exit status: `parseArgv` (pico_args + `parse_args`),
+the regex bag, `dispatch`.  The property files state C04, C10, C11, C12, C14 about the engines or
+about `dispatch` on an `Opt` whose bounds "come from the parser".  Here they are stated about the
+program.  The bridge is `parseArgv_bounds_fromParser` (§0): for EVERY argument vector, every
+`Opt` that `parse_args` returns has bounds that are a value of `UserBoundsList::from_str` — proved
+by walking `parseWith` with an invariant, the way `parseArgv_total` (C19Argv) walks it.  So
+`boundsListOfString_good` / `parsed_nonzero` / `boundsListOfString_noAdj` apply to whatever any
+spelling of the command line makes `main` run with.
+
+| § | theorem | command lines | lifted from |
+|---|---|---|---|
+| 0 | `parseArgv_bounds_fromParser` | ALL argv | new (invariant over `parseWith`) |
+| 1 | `tucMain_never_panics`, `tucMain_run_status` | ALL argv (`-e RE` included), all inputs, all segmentations; no hypothesis | C12 `dispatch_safe` (+ `charsBag_ok`), C19Argv `parseArgv_total`, `Re.bag_ok` |
+| 2 | `tucMain_chunk_independent`, `tucMain_one_read` | ALL argv; empty reads allowed | C04 `dispatch_fixedMemory_chunk_independent` (= `chunk_independent` + `boundsListOfString_noAdj`), C14 `dispatch_flatten` |
+| 3 | `tucMain_deliver_prefix`, `tucMain_deliver_cut_fails`, `tucMain_deliver_enough`, `tucMain_success_complete` (`MainResult.deliver`) | ALL argv | C14 `deliver_prefix`, `deliver_cut_fails`, `success_complete`; `deliver_safe` + §1 for the status |
+| 4 | `tucMain_append`, `tucMain_append_of_fail`, `tucMain_append_of_ok` | ALL argv of field mode (`FieldMode`: `parse_args` selects neither `-b` nor `-c` nor `-l`), with or without `-M`, `-e` included; any segmentation of A and of B | C10 `readAndCutStr_append`, `readAndCutFast_append`; C10Stream `cutBytesStream_append` |
+| 4 | `tucMain_canon_append`, `tucMain_canon_append_one_read` | canonical, accepted, `-f`/default | the instance, terminator in closed form (`Canon.eolByte`) |
+| 5 | `tucMain_swap` | canonical, accepted, `K.NoLfNul`; ALL FOUR modes, with or without `-M` | C11 `readAndCutStr_swap`, `fieldMode_fast_swap` (`readAndCutFast_swap`), `fieldMode_stream_swap` (`cutBytesStream_swap`), `readAndCutStr_swap_chars`, `readAndCutLines_swap`; `readAndCutBytes_swap` (new, here) for `-b` |
+
+All five are full (no `_partial`).  Not done: C10 for `-c` at program level (the outcome
+`unmodelled` there depends on the input being UTF-8, and "`A ++ B` is valid iff `A` and `B` are"
+for `A` ending in an EOL is not in the library); `-b`/`-l` have no C10.  C11 is for canonical
+command lines only (the statement needs the command line "with `-z` toggled").  `-e` is outside
+C11 (as in C11 itself).  Where the model says `unmodelled` (`-e` with a regex outside
+`Tuc.Model.Regex`, `-c` on input that is not UTF-8) §1 only says "not `panic`".
+
+Imports.  `Tuc.Props.EndToEnd` cannot be imported together with `Tuc.Props.C11` (both declare
+`Tuc.exLines`), nor `Tuc.Lemmas.RegexSpec` / `Tuc.Props.C16` together with `Tuc.Props.C12` (C12
+imports C07; `Tuc.rangesBetweenMatches_boundaries` is declared in C07 and in Lemmas/RegexSpec).
+Hence: (a) the acceptance condition of EndToEnd (`K.accepted` + `optAll regexOk K.e` +
+`regexOk charsRegexText`, which `Canon.sensible` / `Canon.accepted_parts` there turn into exactly
+the three fields below) is restated as the structure `Canon.Accepted`, and `tucMain_canon` is
+re-derived from `parseArgv_canonArgv` as `Canon.Accepted.main`; (b) `Re.bag_ok` is re-proved, text
+unchanged, in `Tuc.Lemmas.MainLevel` (namespace `Tuc.MainLevel`).
+-/
 namespace Tuc
 set_option linter.constructorNameAsVariable false
 
@@ -176,5 +214,916 @@ theorem parseArgv_bounds_fromParser (regexOk : Arg → Bool) (argv : List Arg) (
   cases hp : parseWith picoOps regexOk argv with
   | done r => rw [hp] at this h; simp only [Step.result] at h; subst h; exact this
   | next r s => rw [hp] at this h; simp only [Step.result] at h; subst h; exact this
+
+/-! ## 1. C12 for every argument vector -/
+
+/-- whatever regex bag `main` runs with honours the contract of `find_iter`: it is absent, the
+    `\b|\B` bag of `-c` (`charsBag_ok`, C12) or the bag of a modelled regex (`Re.bag_ok`) -/
+theorem compileBag_ok (o : Opt) (re : Option Arg) (bag : Option RegexBag)
+    (h : compileBag o re = Option.some bag) : ∀ b, bag = Option.some b → b.OK := by
+  unfold compileBag at h
+  split at h
+  · cases h
+    intro b hb; cases hb; exact charsBag_ok
+  · split at h
+    · cases h; intro b hb; cases hb
+    · split at h
+      · split at h
+        · cases h
+        · cases h
+          intro b hb; cases hb; exact MainLevel.Re.bag_ok _
+      · cases h
+
+/-- the body of `main` after `parse_args`, for bounds that came out of the bounds parser -/
+theorem tucRun_safe (o : Opt) (hf : FromParser o.bounds) (fm : Bool) (re : Option Arg)
+    (segs : List Bytes) :
+    tucRun o fm re segs ≠ .panic ∧
+      ∀ r, tucRun o fm re segs = .run r → r.status = .ok ∨ r.status = .fail := by
+  obtain ⟨f, hf⟩ := hf
+  unfold tucRun
+  cases hc : compileBag o re with
+  | none => exact ⟨by simp, by intro r hr; cases hr⟩
+  | some bag =>
+    simp only
+    split
+    · exact ⟨by simp, by intro r hr; cases hr⟩
+    · cases hd : dispatch { o with regexBag := bag } fm segs with
+      | none => exact ⟨by simp [MainResult.ofDispatch], by intro r hr; cases hr⟩
+      | some r0 =>
+        refine ⟨by simp [MainResult.ofDispatch], ?_⟩
+        intro r hr
+        simp only [MainResult.ofDispatch, MainResult.run.injEq] at hr
+        subst hr
+        exact dispatch_safe { o with regexBag := bag } f hf (compileBag_ok o re bag hc) fm segs r0 hd
+
+/-- **C12 at the level of the program, for EVERY argument vector.**  Whatever the arguments (any
+    spelling `pico_args` understands, any values, any conflicts, `-e RE` included), whatever the
+    input and however the reads deliver it: the model of `main` never reaches a panic site —
+    neither an `unwrap`/`expect` of `parse_args` (`parseArgv_total`) nor one in an engine
+    (`dispatch_safe`) — and when an engine runs it ends with exit status 0 or 1 (no panic, no
+    endless loop).  No hypothesis: the bounds of every `Opt` that `parse_args` returns come out of
+    the bounds parser (`parseArgv_bounds_fromParser`), the regex bag is `none`, `\b|\B` or
+    compiled from a modelled regex (`compileBag_ok`). -/
+theorem tucMain_never_panics (regexOk : Arg → Bool) (argv : List Arg) (segs : List Bytes) :
+    tucMain regexOk argv segs ≠ .panic ∧
+      ∀ r, tucMain regexOk argv segs = .run r → r.status = .ok ∨ r.status = .fail := by
+  unfold tucMain
+  cases hp : parseArgv regexOk argv with
+  | help => exact ⟨by simp, by intro r hr; cases hr⟩
+  | version => exact ⟨by simp, by intro r hr; cases hr⟩
+  | reject => exact ⟨by simp, by intro r hr; cases hr⟩
+  | panic => exact absurd hp (parseArgv_total regexOk argv)
+  | run o fm re => exact tucRun_safe o (parseArgv_bounds_fromParser regexOk argv o fm re hp) fm re segs
+
+/-- in particular neither a panic nor an endless loop inside an engine -/
+theorem tucMain_run_status (regexOk : Arg → Bool) (argv : List Arg) (segs : List Bytes) (r : Run)
+    (h : tucMain regexOk argv segs = .run r) : r.status ≠ .panic ∧ r.status ≠ .hang := by
+  have := (tucMain_never_panics regexOk argv segs).2 r h
+  exact ⟨Run.Safe.ne_panic this, Run.Safe.ne_hang this⟩
+
+/-- a NON-canonical spelling (`-d:` glued, the cluster `-gz`, `--fields=2`): the engine runs and
+    ends well.  `tuc --fields=2 -d: -gz` on `a::b␀` prints `b␀`. -/
+example :
+    tucMain (fun _ => true) [['-', '-', 'f', 'i', 'e', 'l', 'd', 's', '=', '2'], ['-', 'd', ':'], ['-', 'g', 'z']]
+      [[97, 58], [58, 98, 0]] = .run (Run.ok [98, 0]) := by decide +kernel
+
+/-- … and an instance of the theorem on a command line that fails in the engine (`-f 3` on a
+    record of two fields: exit 1) -/
+example :
+    tucMain (fun _ => true) [['-', 'f', '3'], ['-', 'd', ':']] [[97, 58, 98, 10]] = .run Run.fail := by
+  decide +kernel
+
+/-! ## 2. C04 at the level of the program -/
+
+theorem tucRun_chunk_independent (o : Opt) (hf : FromParser o.bounds) (fm : Bool) (re : Option Arg)
+    (segs segs' : List Bytes) (h : segs.flatten = segs'.flatten) :
+    tucRun o fm re segs = tucRun o fm re segs' := by
+  obtain ⟨f, hf⟩ := hf
+  unfold tucRun
+  cases compileBag o re with
+  | none => rfl
+  | some bag =>
+    simp only [h]
+    have : dispatch { o with regexBag := bag } fm segs = dispatch { o with regexBag := bag } fm segs' := by
+      cases fm with
+      | true => exact dispatch_fixedMemory_chunk_independent { o with regexBag := bag } f hf segs segs' h
+      | false => exact dispatch_flatten _ segs segs' h
+    rw [this]
+
+/-- **C04 at the level of the program, for EVERY argument vector.**  What `tuc` does — help,
+    rejection, or the bytes on stdout and the exit status — depends on the bytes of the input
+    only, never on how successive reads split it: with `-M` by C04 (`chunk_independent`, whose
+    hypothesis `NoAdjFillers` holds for everything the bounds parser produces), without `-M`
+    because the engines are handed `segs.flatten`.  Empty reads are allowed. -/
+theorem tucMain_chunk_independent (regexOk : Arg → Bool) (argv : List Arg) (segs segs' : List Bytes)
+    (h : segs.flatten = segs'.flatten) :
+    tucMain regexOk argv segs = tucMain regexOk argv segs' := by
+  unfold tucMain
+  cases hp : parseArgv regexOk argv with
+  | run o fm re =>
+    exact tucRun_chunk_independent o (parseArgv_bounds_fromParser regexOk argv o fm re hp) fm re segs segs' h
+  | _ => rfl
+
+/-- … in particular it is what one read of the whole input gives -/
+theorem tucMain_one_read (regexOk : Arg → Bool) (argv : List Arg) (segs : List Bytes) :
+    tucMain regexOk argv segs = tucMain regexOk argv [segs.flatten] :=
+  tucMain_chunk_independent regexOk argv _ _ (by simp)
+
+/-- `tuc -M1 -d: -f1,3` (glued values) on `a:b:c⏎x:y:z⏎` in pieces of 4, 3 and 5 bytes, and in one -/
+example :
+    tucMain (fun _ => true) [['-', 'M', '1'], ['-', 'd', ':'], ['-', 'f', '1', ',', '3']]
+        [[97, 58, 98, 58], [99, 10, 120], [58, 121, 58, 122, 10]] = .run (Run.ok [97, 99, 10, 120, 122, 10]) ∧
+    tucMain (fun _ => true) [['-', 'M', '1'], ['-', 'd', ':'], ['-', 'f', '1', ',', '3']]
+        [[97, 58, 98, 58, 99, 10, 120, 58, 121, 58, 122, 10]] = .run (Run.ok [97, 99, 10, 120, 122, 10]) := by
+  decide +kernel
+
+/-! ## 3. C14, writer side, at the level of the program -/
+
+/-- the invocation with a stdout that accepts `lim` bytes and then fails (`none` = never fails):
+    what `deliver` (`BufWriter` + the final `flush()?`) makes of the engine's run.  (The texts of
+    `--help` / `--version` are not modelled, so those outcomes are left as they are.) -/
+def MainResult.deliver (m : MainResult) (lim : Option Nat) : MainResult :=
+  match m with
+  | .run r => .run (Tuc.deliver r lim)
+  | x => x
+
+theorem MainResult.deliver_run (r : Run) (lim : Option Nat) :
+    (MainResult.run r).deliver lim = .run (Tuc.deliver r lim) := rfl
+
+/-- **C14 (writer side) for every argument vector, 1**: whatever the position of the write fault,
+    what reaches stdout is a prefix of the fault-free output, and the outcome is still a run with
+    exit status 0 or 1 -/
+theorem tucMain_deliver_prefix (regexOk : Arg → Bool) (argv : List Arg) (segs : List Bytes)
+    (lim : Option Nat) (r : Run) (h : tucMain regexOk argv segs = .run r) :
+    ∃ r', (tucMain regexOk argv segs).deliver lim = .run r' ∧ r'.out <+: r.out ∧
+      (r'.status = .ok ∨ r'.status = .fail) := by
+  rw [h]
+  exact ⟨Tuc.deliver r lim, rfl, deliver_prefix r lim,
+    deliver_safe r lim ((tucMain_never_panics regexOk argv segs).2 r h)⟩
+
+/-- **2**: a write fault that cuts anything off never ends in exit status 0 -/
+theorem tucMain_deliver_cut_fails (regexOk : Arg → Bool) (argv : List Arg) (segs : List Bytes)
+    (k : Nat) (r : Run) (h : tucMain regexOk argv segs = .run r) (hk : k < r.out.length) :
+    ∃ r', (tucMain regexOk argv segs).deliver (Option.some k) = .run r' ∧ r'.out = r.out.take k ∧
+      r'.status = .fail := by
+  rw [h]
+  refine ⟨Tuc.deliver r (Option.some k), rfl, ?_, ?_⟩
+  · unfold Tuc.deliver
+    have : ¬ (r.out.length ≤ k) := by omega
+    simp only [this, if_false]
+  · have h1 := deliver_cut_fails r k hk
+    have h2 := deliver_safe r (Option.some k) ((tucMain_never_panics regexOk argv segs).2 r h)
+    rcases h2 with h2 | h2
+    · exact absurd h2 h1
+    · exact h2
+
+/-- **3**: a writer that accepts at least as many bytes as the run writes changes nothing, whatever
+    the outcome -/
+theorem tucMain_deliver_enough (regexOk : Arg → Bool) (argv : List Arg) (segs : List Bytes) (k : Nat)
+    (hk : ∀ r, tucMain regexOk argv segs = .run r → r.out.length ≤ k) :
+    (tucMain regexOk argv segs).deliver (Option.some k) = tucMain regexOk argv segs := by
+  cases hm : tucMain regexOk argv segs with
+  | run r =>
+    have := hk r hm
+    simp only [MainResult.deliver, Tuc.deliver, this, if_true]
+  | _ => rfl
+
+/-- **4**: when the invocation ends with exit status 0, everything the engine wrote was delivered -/
+theorem tucMain_success_complete (regexOk : Arg → Bool) (argv : List Arg) (segs : List Bytes)
+    (lim : Option Nat) (r' : Run) (h : (tucMain regexOk argv segs).deliver lim = .run r')
+    (hok : r'.status = .ok) : tucMain regexOk argv segs = .run r' := by
+  cases hm : tucMain regexOk argv segs with
+  | run r =>
+    rw [hm, MainResult.deliver_run, MainResult.run.injEq] at h
+    subst h
+    rw [success_complete r lim hok]
+  | _ => rw [hm] at h; cases h
+
+/-- `tuc -d: -f2,1` on `a:b⏎c:d⏎` writes `ba⏎dc⏎`; a stdout that takes 4 bytes gets `ba⏎d`, exit 1 -/
+example :
+    tucMain (fun _ => true) [['-', 'd', ':'], ['-', 'f', '2', ',', '1']] [[97, 58, 98, 10, 99, 58, 100, 10]] =
+      .run (Run.ok [98, 97, 10, 100, 99, 10]) ∧
+    (tucMain (fun _ => true) [['-', 'd', ':'], ['-', 'f', '2', ',', '1']] [[97, 58, 98, 10, 99, 58, 100, 10]]).deliver
+      (Option.some 4) = .run ⟨[98, 97, 10, 100], .fail⟩ := by
+  decide +kernel
+
+/-! ## 4. C10 at the level of the program -/
+
+/-- "the first part, then (if it went well) the second": two engine runs are sequenced with
+    `Run.seq`; an outcome that does not depend on the input (help, version, rejection, a regex the
+    model does not cover) is the outcome of the whole -/
+def MainResult.seq : MainResult → MainResult → MainResult
+  | .run a, .run b => .run (a.seq b)
+  | x, _ => x
+
+theorem fastOptOf_eol {o : Opt} {fo : FastOpt} (h : fastOptOf o = Option.some fo) : fo.eol = o.eol := by
+  unfold fastOptOf at h
+  split at h
+  · split at h
+    · cases h
+    · cases h; rfl
+  · cases h
+
+theorem streamOptOf_eol {o : Opt} {so : StreamOpt} (hs : streamOptOf o = Option.some so) :
+    so.eol = o.eol := by
+  have := streamOptOf_swapped o
+  unfold streamOptOf at hs
+  split at hs
+  · rcases hr : o.replaceDelimiter with _ | ⟨_ | ⟨r, _ | ⟨r2, t⟩⟩⟩ <;> rw [hr] at hs <;>
+      simp only at hs
+    · split at hs
+      · cases hs
+      · cases hf : forwardBoundsOf o.bounds with
+        | none => rw [hf] at hs; cases hs
+        | some bs =>
+          rw [hf] at hs
+          simp only at hs
+          cases hl : lastBoundRight (boundsOnly bs) with
+          | none => rw [hl] at hs; cases hs
+          | some last => rw [hl] at hs; cases hs; rfl
+    · cases hs
+    · split at hs
+      · cases hs
+      · cases hf : forwardBoundsOf o.bounds with
+        | none => rw [hf] at hs; cases hs
+        | some bs =>
+          rw [hf] at hs
+          simp only at hs
+          cases hl : lastBoundRight (boundsOnly bs) with
+          | none => rw [hl] at hs; cases hs
+          | some last => rw [hl] at hs; cases hs; rfl
+    · cases hs
+  · cases hs
+
+/-- C10 for whatever engine `main` picks in field mode (`-M`: `cutBytesStream_append`, fast lane:
+    `readAndCutFast_append`, general path: `readAndCutStr_append`) -/
+theorem dispatch_append (o : Opt) (hty : o.boundsType = .fields) (fm : Bool) (segsA segsB : List Bytes)
+    (a : Bytes) (h : segsA.flatten = a ++ [o.eol.byte]) :
+    MainResult.ofDispatch (dispatch o fm (segsA ++ segsB)) =
+      (MainResult.ofDispatch (dispatch o fm segsA)).seq (MainResult.ofDispatch (dispatch o fm segsB)) := by
+  unfold dispatch
+  simp only [List.flatten_append, h]
+  cases fm with
+  | true =>
+    simp only [if_true]
+    cases hso : streamOptOf o with
+    | none => rfl
+    | some so =>
+      simp only [MainResult.ofDispatch, MainResult.seq]
+      rw [cutBytesStream_append so segsA segsB a (by rw [streamOptOf_eol hso]; exact h)]
+  | false =>
+    simp only [Bool.false_eq_true, if_false, hty, reduceCtorEq]
+    cases hfo : fastOptOf o with
+    | some fo =>
+      simp only [MainResult.ofDispatch, MainResult.seq]
+      rw [← fastOptOf_eol hfo, readAndCutFast_append]
+    | none =>
+      simp only [MainResult.ofDispatch, MainResult.seq]
+      rw [readAndCutStr_append]
+
+theorem tucRun_append (o : Opt) (hty : o.boundsType = .fields) (fm : Bool) (re : Option Arg)
+    (segsA segsB : List Bytes) (a : Bytes) (h : segsA.flatten = a ++ [o.eol.byte]) :
+    tucRun o fm re (segsA ++ segsB) = (tucRun o fm re segsA).seq (tucRun o fm re segsB) := by
+  unfold tucRun
+  cases compileBag o re with
+  | none => rfl
+  | some bag =>
+    have hc : ∀ x : Bytes, (decide (o.boundsType = BoundsType.characters) && !validUtf8 x) = false := by
+      intro x; simp [hty]
+    simp only [hc, Bool.false_eq_true, if_false]
+    exact dispatch_append { o with regexBag := bag } hty fm segsA segsB a h
+
+/-- the record terminator in force, read off what `parse_args` returns (`-z`: NUL) -/
+def eolOf (regexOk : Arg → Bool) (argv : List Arg) : UInt8 :=
+  match parseArgv regexOk argv with
+  | .run o _ _ => o.eol.byte
+  | _ => 10
+
+/-- `parse_args` does not select `-b`, `-c` or `-l`: field mode (`-f`, or no mode option) -/
+def FieldMode (regexOk : Arg → Bool) (argv : List Arg) : Prop :=
+  ∀ o fm re, parseArgv regexOk argv = .run o fm re → o.boundsType = .fields
+
+/-- **C10 at the level of the program, for EVERY argument vector of field mode** (any spelling;
+    any of `-d -e -g -p -s -t -z -m -j -r --json --fallback-oob`; with or without `-M`): if the
+    reads `segsA` deliver an input that ends with the record terminator in force, then running
+    `tuc` on `segsA` followed by `segsB` is running it on `segsA` and then (if that ended with
+    status 0) on `segsB` — bytes on stdout and exit status; and an outcome that does not depend on
+    the input (help, version, rejection) is the same three times.  Any read segmentation on either
+    side.  Lifts `readAndCutStr_append`, `readAndCutFast_append` (C10) and
+    `cutBytesStream_append` (C10 for `-M`). -/
+theorem tucMain_append (regexOk : Arg → Bool) (argv : List Arg) (hmode : FieldMode regexOk argv)
+    (segsA segsB : List Bytes) (a : Bytes) (h : segsA.flatten = a ++ [eolOf regexOk argv]) :
+    tucMain regexOk argv (segsA ++ segsB) =
+      (tucMain regexOk argv segsA).seq (tucMain regexOk argv segsB) := by
+  unfold eolOf at h
+  unfold tucMain
+  cases hp : parseArgv regexOk argv with
+  | run o fm re =>
+    rw [hp] at h
+    exact tucRun_append o (hmode o fm re hp) fm re segsA segsB a h
+  | _ => rfl
+
+/-- … and if the run on the first part fails, the run on the whole fails the same way, having
+    delivered exactly the same bytes -/
+theorem tucMain_append_of_fail (regexOk : Arg → Bool) (argv : List Arg) (hmode : FieldMode regexOk argv)
+    (segsA segsB : List Bytes) (a : Bytes) (h : segsA.flatten = a ++ [eolOf regexOk argv]) (r : Run)
+    (hr : tucMain regexOk argv segsA = .run r) (hf : r.status ≠ .ok) :
+    tucMain regexOk argv (segsA ++ segsB) = .run r := by
+  rw [tucMain_append regexOk argv hmode segsA segsB a h, hr]
+  cases hb : tucMain regexOk argv segsB with
+  | run b => simp only [MainResult.seq]; rw [Run.seq_of_not_ok _ _ hf]
+  | _ => rfl
+
+/-- … and if it succeeds, the outputs are concatenated and the status is that of the second part -/
+theorem tucMain_append_of_ok (regexOk : Arg → Bool) (argv : List Arg) (hmode : FieldMode regexOk argv)
+    (segsA segsB : List Bytes) (a : Bytes) (h : segsA.flatten = a ++ [eolOf regexOk argv]) (r r' : Run)
+    (hr : tucMain regexOk argv segsA = .run r) (hr' : tucMain regexOk argv segsB = .run r')
+    (hok : r.status = .ok) :
+    tucMain regexOk argv (segsA ++ segsB) = .run ⟨r.out ++ r'.out, r'.status⟩ := by
+  rw [tucMain_append regexOk argv hmode segsA segsB a h, hr, hr']
+  simp only [MainResult.seq, Run.seq, hok]
+
+/-! ### canonical command lines
+
+`Tuc.Props.EndToEnd` (which this file cannot import, see the header) packs the following three
+conditions, for a matcher verdict `regexOk`, into the decidable `K.accepted` plus
+`optAll regexOk K.e` and `regexOk charsRegexText` (`Canon.sensible`, `Canon.accepted_parts`). -/
+
+/-- `parse_args` accepts the canonical command line of `K`: no value starts with `-`
+    (`K.clean`), something is given, every value parses, the regex engine accepts `-e`'s value
+    (`Sensible`), and none of the conflicts decided inside `parse_args` is present -/
+structure Canon.Accepted (regexOk : Arg → Bool) (K : Canon) : Prop where
+  clean : K.clean = true
+  sensible : Sensible regexOk K.table
+  noConflict : upFrontReject (flagsOf K.table) = false
+
+/-- what `parse_args` returns on an accepted canonical command line (`parseArgv_canonArgv`) -/
+theorem Canon.Accepted.parse {regexOk : Arg → Bool} {K : Canon} (h : K.Accepted regexOk) :
+    parseArgv regexOk (canonArgv K) = .run (optOf K.table) K.table.memKb.isSome K.table.regexText := by
+  rw [parseArgv_canonArgv regexOk K h.clean h.sensible, tableAnswer, h.noConflict]
+  rfl
+
+/-- `tucMain_canon` of `Tuc.Props.EndToEnd`, from `Canon.Accepted` -/
+theorem Canon.Accepted.main {regexOk : Arg → Bool} {K : Canon} (h : K.Accepted regexOk)
+    (segs : List Bytes) :
+    tucMain regexOk (canonArgv K) segs =
+      tucRun (optOf K.table) K.table.memKb.isSome K.table.regexText segs := by
+  unfold tucMain
+  rw [h.parse]
+
+theorem Canon.tableMode (K : Canon) : K.table.mode = K.mode := by
+  cases hm : K.mode <;> simp [Table.mode, Canon.table, hm]
+
+/-- the record terminator of `K`: NUL with `-z`, LF without -/
+def Canon.eolByte (K : Canon) : UInt8 := if K.z = true then 0 else 10
+
+theorem Canon.Accepted.eolOf {regexOk : Arg → Bool} {K : Canon} (h : K.Accepted regexOk) :
+    Tuc.eolOf regexOk (canonArgv K) = K.eolByte := by
+  unfold Tuc.eolOf
+  rw [h.parse]
+  show (if K.z = true then EOL.zero else EOL.newline).byte = K.eolByte
+  unfold Canon.eolByte
+  cases K.z <;> rfl
+
+theorem Canon.Accepted.fieldMode {regexOk : Arg → Bool} {K : Canon} (h : K.Accepted regexOk)
+    (hmode : K.mode = .f ∨ K.mode = .dflt) : FieldMode regexOk (canonArgv K) := by
+  intro o fm re hp
+  rw [h.parse] at hp
+  cases hp
+  show boundsTypeOf K.table.mode = .fields
+  rw [K.tableMode]
+  rcases hmode with hm | hm <;> rw [hm] <;> rfl
+
+/-- **C10 for canonical command lines of field mode** (`-f` or no mode option; any accepted
+    option set, `-M N` included): the instance of `tucMain_append` with the terminator in closed
+    form -/
+theorem tucMain_canon_append (regexOk : Arg → Bool) (K : Canon) (hK : K.Accepted regexOk)
+    (hmode : K.mode = .f ∨ K.mode = .dflt) (segsA segsB : List Bytes) (a : Bytes)
+    (h : segsA.flatten = a ++ [K.eolByte]) :
+    tucMain regexOk (canonArgv K) (segsA ++ segsB) =
+      (tucMain regexOk (canonArgv K) segsA).seq (tucMain regexOk (canonArgv K) segsB) :=
+  tucMain_append regexOk (canonArgv K) (hK.fieldMode hmode) segsA segsB a (by rw [hK.eolOf]; exact h)
+
+/-- the form of the task: one read of `A ++ B` -/
+theorem tucMain_canon_append_one_read (regexOk : Arg → Bool) (K : Canon) (hK : K.Accepted regexOk)
+    (hmode : K.mode = .f ∨ K.mode = .dflt) (a b : Bytes) :
+    tucMain regexOk (canonArgv K) [(a ++ [K.eolByte]) ++ b] =
+      (tucMain regexOk (canonArgv K) [a ++ [K.eolByte]]).seq (tucMain regexOk (canonArgv K) [b]) := by
+  rw [tucMain_chunk_independent regexOk (canonArgv K) [(a ++ [K.eolByte]) ++ b]
+    ([a ++ [K.eolByte]] ++ [b]) (by simp)]
+  exact tucMain_canon_append regexOk K hK hmode [a ++ [K.eolByte]] [b] a (by simp)
+
+/-- `tuc -f 2 -d : -M 1` -/
+def exAppend : Canon := { mode := .f, bounds := ['2'], d := Option.some [':'], mem := Option.some ['1'] }
+
+theorem exAppend_accepted : exAppend.Accepted (fun _ => true) where
+  clean := by decide +kernel
+  sensible := ⟨by decide +kernel, rfl, rfl, by simp [Canon.table, exAppend], by decide +kernel,
+    by decide +kernel, by simp [Canon.table, exAppend], by simp, rfl⟩
+  noConflict := by decide +kernel
+
+/-- on `a:b⏎` (read as `a:` + `b⏎`) followed by `c⏎` (no second field: exit 1 after `b⏎`) -/
+example :
+    tucMain (fun _ => true) (canonArgv exAppend) ([[97, 58], [98, 10]] ++ [[99, 10]]) =
+      (tucMain (fun _ => true) (canonArgv exAppend) [[97, 58], [98, 10]]).seq
+        (tucMain (fun _ => true) (canonArgv exAppend) [[99, 10]]) :=
+  tucMain_canon_append _ exAppend exAppend_accepted (Or.inl rfl) _ _ [97, 58, 98] (by decide)
+
+example :
+    tucMain (fun _ => true) (canonArgv exAppend) [[97, 58], [98, 10]] = .run (Run.ok [98, 10]) ∧
+    tucMain (fun _ => true) (canonArgv exAppend) [[99, 10]] = .run Run.fail ∧
+    tucMain (fun _ => true) (canonArgv exAppend) ([[97, 58], [98, 10]] ++ [[99, 10]]) =
+      .run ⟨[98, 10], .fail⟩ := by
+  decide +kernel
+
+/-! ## 5. C11 at the level of the program -/
+
+/-- the engine's output renamed (help, version, rejection carry no modelled bytes) -/
+def MainResult.mapOut (f : Bytes → Bytes) : MainResult → MainResult
+  | .run r => .run (r.mapOut f)
+  | x => x
+
+theorem swap_flatten (segs : List Bytes) : (segs.map swap).flatten = swap segs.flatten := by
+  simp [swap, List.map_flatten]
+
+theorem streamOptOf_none_of_not_fields (o : Opt) (h : o.boundsType ≠ .fields) : streamOptOf o = none := by
+  have := streamOptOf_isSome o
+  have hb : (o.boundsType != BoundsType.fields) = true := by simpa using h
+  rw [hb] at this
+  cases hs : streamOptOf o with
+  | none => rfl
+  | some so => rw [hs] at this; simp at this
+
+/-- field mode, literal delimiter: whichever engine `main` picks (`fieldMode_stream_swap`,
+    `fieldMode_fast_swap`, `readAndCutStr_swap`) -/
+theorem dispatch_swap_fields {o : Opt} (h : NoLfNulOpt o) (hty : o.boundsType = .fields) (fm : Bool)
+    (segs : List Bytes) :
+    dispatch o.swapped fm (segs.map swap) = (dispatch o fm segs).map (Run.mapOut swap) := by
+  have hty' : o.swapped.boundsType = .fields := hty
+  unfold dispatch
+  simp only [swap_flatten]
+  cases fm with
+  | true =>
+    simp only [if_true]
+    cases hso : streamOptOf o with
+    | none => rw [streamOptOf_swapped, hso]; rfl
+    | some so =>
+      obtain ⟨h1, h2⟩ := fieldMode_stream_swap h hso segs
+      rw [h1]
+      simp only [Option.map_some, h2]
+  | false =>
+    simp only [Bool.false_eq_true, if_false, hty, hty', reduceCtorEq]
+    cases hfo : fastOptOf o with
+    | some fo =>
+      obtain ⟨h1, h2⟩ := fieldMode_fast_swap h hfo segs.flatten
+      rw [h1]
+      simp only [Option.map_some, h2]
+    | none =>
+      rw [fastOptOf_swapped, hfo]
+      simp only [Option.map_none, Option.map_some, readAndCutStr_swap h]
+
+/-- `-c` (`readAndCutStr_swap_chars`); with `-M` both sides are refused -/
+theorem dispatch_swap_chars {o : Opt} (h : NoLfNulChars o) (hty : o.boundsType = .characters) (fm : Bool)
+    (segs : List Bytes) :
+    dispatch o.swapped fm (segs.map swap) = (dispatch o fm segs).map (Run.mapOut swap) := by
+  have hty' : o.swapped.boundsType = .characters := hty
+  have hnf : o.boundsType ≠ .fields := by rw [hty]; decide
+  unfold dispatch
+  simp only [swap_flatten]
+  cases fm with
+  | true =>
+    simp only [if_true]
+    rw [streamOptOf_swapped, streamOptOf_none_of_not_fields o hnf]
+    rfl
+  | false =>
+    have hfo : fastOptOf o = none := by
+      cases hf : fastOptOf o with
+      | none => rfl
+      | some fo =>
+        have := (fastOptOf_isSome_iff o).mp (by rw [hf]; rfl)
+        rw [hty] at this
+        exact absurd this.2.2.2.2.2.1 (by decide)
+    simp only [Bool.false_eq_true, if_false, hty, hty', reduceCtorEq]
+    rw [fastOptOf_swapped, hfo]
+    simp only [Option.map_none, Option.map_some, readAndCutStr_swap_chars h]
+
+/-- `-l` (`readAndCutLines_swap`: LF and NUL are also exchanged in the delimiter, which in line
+    mode is the terminator); with `-M` both sides are refused -/
+theorem dispatch_swap_lines {o : Opt} (h : NoLfNulLits o) (hty : o.boundsType = .lines) (fm : Bool)
+    (segs : List Bytes) :
+    dispatch o.swappedAll fm (segs.map swap) = (dispatch o fm segs).map (Run.mapOut swap) := by
+  have hty' : o.swappedAll.boundsType = .lines := hty
+  unfold dispatch
+  simp only [swap_flatten]
+  cases fm with
+  | true =>
+    simp only [if_true]
+    rw [streamOptOf_none_of_not_fields o (by rw [hty]; decide),
+      streamOptOf_none_of_not_fields o.swappedAll (by rw [hty']; decide)]
+    rfl
+  | false =>
+    simp only [Bool.false_eq_true, if_false, hty, hty', reduceCtorEq, if_true, Option.map_some,
+      readAndCutLines_swap h]
+
+/-! `-b` is not an engine "that reads records or lines" and C11 has no statement for it; the
+    naturality of `cut_bytes` is immediate and proved here so that the program-level statement
+    covers all four modes. -/
+
+theorem slice_swap (data : Bytes) (s e : Nat) : slice (swap data) s e = swap (slice data s e) := by
+  simp [slice, swap, List.map_take, List.map_drop]
+
+theorem cutBytesLoop_swap {o o' : Opt} (hfb : o'.fallbackOob = o.fallbackOob)
+    (hoob : ∀ f, o.fallbackOob = Option.some f → NoLfNul f) (data : Bytes) :
+    ∀ l : List BoF, (∀ f, BoF.filler f ∈ l → NoLfNul f) →
+      (∀ b f, BoF.bound b ∈ l → b.fallback = Option.some f → NoLfNul f) →
+      cutBytesLoop (swap data) o' l = (cutBytesLoop data o l).mapOut swap
+  | [], _, _ => rfl
+  | .filler f :: t, h1, h2 => by
+    have ih := cutBytesLoop_swap hfb hoob data t (fun f hf => h1 f (List.mem_cons_of_mem _ hf))
+      (fun b f hb hf => h2 b f (List.mem_cons_of_mem _ hb) hf)
+    have hf : swap f = f := swap_of_noLfNul (h1 f (List.mem_cons_self ..))
+    simp only [cutBytesLoop, ih, Run.pre, Run.mapOut, swap_append, hf]
+  | .bound b :: t, h1, h2 => by
+    have ih := cutBytesLoop_swap hfb hoob data t (fun f hf => h1 f (List.mem_cons_of_mem _ hf))
+      (fun b f hb hf => h2 b f (List.mem_cons_of_mem _ hb) hf)
+    simp only [cutBytesLoop, swap_length, hfb]
+    cases hr : b.tryIntoRange data.length with
+    | some p =>
+      obtain ⟨s, e⟩ := p
+      simp only
+      split
+      · simp only [ih, Run.pre, Run.mapOut, swap_append, slice_swap]
+      · rfl
+    | none =>
+      simp only
+      cases hbf : b.fallback with
+      | some f =>
+        have hf : swap f = f := swap_of_noLfNul (h2 b f (List.mem_cons_self ..) hbf)
+        simp only [ih, Run.pre, Run.mapOut, swap_append, hf]
+      | none =>
+        simp only
+        cases hof : o.fallbackOob with
+        | some f =>
+          have hf : swap f = f := swap_of_noLfNul (hoob f hof)
+          simp only [ih, Run.pre, Run.mapOut, swap_append, hf]
+        | none => rfl
+
+/-- C11 for `-b` (the terminator plays no role there: `-z` only renames the bytes) -/
+theorem readAndCutBytes_swap {o : Opt} (h : NoLfNulLits o) (data : Bytes) :
+    readAndCutBytes o.swapped (swap data) = (readAndCutBytes o data).mapOut swap := by
+  unfold readAndCutBytes
+  have he : (swap data).isEmpty = data.isEmpty := by cases data <;> rfl
+  rw [he]
+  split
+  · rfl
+  · exact cutBytesLoop_swap (o := o) (o' := o.swapped) rfl h.fallbackOob data _ h.fillers h.fallbacks
+
+theorem dispatch_swap_bytes {o : Opt} (h : NoLfNulLits o) (hty : o.boundsType = .bytes) (fm : Bool)
+    (segs : List Bytes) :
+    dispatch o.swapped fm (segs.map swap) = (dispatch o fm segs).map (Run.mapOut swap) := by
+  have hty' : o.swapped.boundsType = .bytes := hty
+  unfold dispatch
+  simp only [swap_flatten]
+  cases fm with
+  | true =>
+    simp only [if_true]
+    rw [streamOptOf_none_of_not_fields o (by rw [hty]; decide),
+      streamOptOf_none_of_not_fields o.swapped (by rw [hty']; decide)]
+    rfl
+  | false =>
+    simp only [Bool.false_eq_true, if_false, hty, hty', if_true, Option.map_some,
+      readAndCutBytes_swap h]
+
+/-! ### `tucRun` -/
+
+theorem MainResult.mapOut_ofDispatch (f : Bytes → Bytes) (d : Option Run) :
+    (MainResult.ofDispatch d).mapOut f = MainResult.ofDispatch (d.map (Run.mapOut f)) := by
+  cases d <;> rfl
+
+/-- `tucRun` without `-e`, not in character mode (`tucRun_plain` of `Tuc.Props.EndToEnd`) -/
+theorem tucRun_noRegex (o : Opt) (fm : Bool) (segs : List Bytes) (hbt : o.boundsType ≠ .characters)
+    (hbag : o.regexBag = none) :
+    tucRun o fm none segs = MainResult.ofDispatch (dispatch o fm segs) := by
+  have ho : { o with regexBag := none } = o := by
+    cases o; simp only at hbag; subst hbag; rfl
+  simp only [tucRun, compileBag, hbt, if_false, ho, decide_false, Bool.false_and, Bool.false_eq_true]
+
+/-- `tucRun` in character mode -/
+theorem tucRun_charsMode (o : Opt) (fm : Bool) (re : Option Arg) (segs : List Bytes)
+    (hbt : o.boundsType = .characters) :
+    tucRun o fm re segs =
+      if validUtf8 segs.flatten = true then
+        MainResult.ofDispatch (dispatch { o with regexBag := Option.some charsBag } fm segs)
+      else .unmodelled := by
+  simp only [tucRun, compileBag, hbt, if_true]
+  cases validUtf8 segs.flatten <;> simp
+
+/-! ### canonical command lines -/
+
+/-- `K` with `-z` added if it is absent, removed if it is present -/
+def Canon.toggleZ (K : Canon) : Canon := { K with z := !K.z }
+
+theorem Canon.toggleZ_toggleZ (K : Canon) : K.toggleZ.toggleZ = K := by
+  cases K; simp [Canon.toggleZ]
+
+theorem Canon.toggleZ_mode (K : Canon) : K.toggleZ.table.mode = K.table.mode := rfl
+theorem Canon.toggleZ_memKb (K : Canon) : K.toggleZ.table.memKb = K.table.memKb := rfl
+theorem Canon.toggleZ_regexText (K : Canon) : K.toggleZ.table.regexText = K.table.regexText := rfl
+
+/-- the `Opt` of the toggled command line: the other terminator, everything else unchanged -/
+theorem Canon.optOf_toggleZ (K : Canon) (hl : K.mode ≠ .l) :
+    optOf K.toggleZ.table = (optOf K.table).swapped := by
+  have hm : boundsTypeOf K.table.mode ≠ .lines := by
+    rw [K.tableMode]; cases h : K.mode <;> simp_all [boundsTypeOf]
+  unfold Opt.swapped optOf
+  simp only [Opt.mk.injEq, Canon.toggleZ_mode, hm, if_false]
+  refine ⟨rfl, ?_, rfl, trivial, rfl, rfl, rfl, rfl, rfl, rfl, rfl, rfl, rfl, rfl, trivial⟩
+  show (if (!K.z) = true then EOL.zero else EOL.newline) = (if K.z = true then EOL.zero else EOL.newline).swap
+  cases K.z <;> rfl
+
+/-- … in line mode the delimiter is the terminator, so it changes too -/
+theorem Canon.optOf_toggleZ_lines (K : Canon) (hl : K.mode = .l) :
+    optOf K.toggleZ.table = (optOf K.table).swappedAll := by
+  have hm : boundsTypeOf K.table.mode = .lines := by rw [K.tableMode, hl]; rfl
+  unfold Opt.swappedAll optOf
+  simp only [Opt.mk.injEq, Canon.toggleZ_mode, hm, if_true]
+  refine ⟨?_, ?_, rfl, trivial, rfl, rfl, rfl, rfl, rfl, rfl, rfl, rfl, rfl, rfl, trivial⟩
+  · show [(if (!K.z) = true then EOL.zero else EOL.newline).byte] =
+      swap [(if K.z = true then EOL.zero else EOL.newline).byte]
+    cases K.z <;> decide
+  · show (if (!K.z) = true then EOL.zero else EOL.newline) = (if K.z = true then EOL.zero else EOL.newline).swap
+    cases K.z <;> rfl
+
+theorem canonArgv_isEmpty_eq (K : Canon) : (canonArgv K).isEmpty = K.table.isEmpty := by
+  rw [canonArgv, render_isEmpty, ← tableOf_isEmpty, K.tableOf_groups]
+
+/-- toggling `-z` does not change whether `parse_args` accepts the command line — unless `-z` was
+    the only argument (`tuc -z` cuts, `tuc` prints the short help) -/
+theorem Canon.Accepted.toggleZ {regexOk : Arg → Bool} {K : Canon} (h : K.Accepted regexOk)
+    (hne : canonArgv K.toggleZ ≠ []) : K.toggleZ.Accepted regexOk where
+  clean := h.clean
+  sensible :=
+    { nonempty := by
+        rw [← canonArgv_isEmpty_eq]
+        cases hc : canonArgv K.toggleZ with
+        | nil => exact absurd hc hne
+        | cons _ _ => rfl
+      noHelp := rfl
+      noVersion := rfl
+      oneMode := h.sensible.oneMode
+      bounds := h.sensible.bounds
+      mem := h.sensible.mem
+      trim := h.sensible.trim
+      regex := h.sensible.regex
+      charsRegex := h.sensible.charsRegex }
+  noConflict := h.noConflict
+
+/-- **the domain of C11 for a command line**: the texts given on it — the values of `-d`, `-r`,
+    `--fallback-oob`, the literal text and the per-bound fallbacks (`{1=x}`) inside the bounds —
+    contain neither LF nor NUL (argv cannot contain NUL in the first place), no `--json`
+    (`serde_json` escapes LF as `\n` and NUL as `\u0000`), no `-e` -/
+structure Canon.NoLfNul (K : Canon) : Prop where
+  d : ∀ x, K.d = Option.some x → Tuc.NoLfNul (utf8 x)
+  r : ∀ x, K.r = Option.some x → Tuc.NoLfNul (utf8 x)
+  fallback : ∀ x, K.fallback = Option.some x → Tuc.NoLfNul (utf8 x)
+  fillers : ∀ f, BoF.filler f ∈ K.table.bounds.list → Tuc.NoLfNul f
+  fallbacks : ∀ b f, BoF.bound b ∈ K.table.bounds.list → b.fallback = Option.some f → Tuc.NoLfNul f
+  noJson : K.json = false
+  noRegex : K.e = none
+
+theorem Canon.optOf_replace (K : Canon) (hj : K.json = false) :
+    (optOf K.table).replaceDelimiter =
+      if boundsTypeOf K.table.mode = .characters then Option.some [] else K.r.map utf8 := by
+  show (if K.json = true then Option.some [44]
+    else if boundsTypeOf K.table.mode = .characters then Option.some [] else K.r.map utf8) = _
+  rw [hj]; rfl
+
+theorem Canon.NoLfNul.replace {K : Canon} (h : K.NoLfNul) :
+    ∀ r, (optOf K.table).replaceDelimiter = Option.some r → Tuc.NoLfNul r := by
+  intro r hr
+  rw [K.optOf_replace h.noJson] at hr
+  split at hr
+  · cases hr; intro b hb; cases hb
+  · cases hkr : K.r with
+    | none => rw [hkr] at hr; cases hr
+    | some x => rw [hkr] at hr; cases hr; exact h.r x hkr
+
+theorem Canon.NoLfNul.fallbackOob {K : Canon} (h : K.NoLfNul) :
+    ∀ f, (optOf K.table).fallbackOob = Option.some f → Tuc.NoLfNul f := by
+  intro f hf
+  have : (optOf K.table).fallbackOob = K.fallback.map utf8 := rfl
+  rw [this] at hf
+  cases hk : K.fallback with
+  | none => rw [hk] at hf; cases hf
+  | some x => rw [hk] at hf; cases hf; exact h.fallback x hk
+
+/-- the general-engine domain of C11 (`NoLfNulLits`) holds for the `Opt` of the command line -/
+theorem Canon.NoLfNul.lits {K : Canon} (h : K.NoLfNul) : NoLfNulLits (optOf K.table) where
+  replace := h.replace
+  fallbackOob := h.fallbackOob
+  fillers := h.fillers
+  fallbacks := h.fallbacks
+  regex := by intro bag hb; cases hb
+  noJson := h.noJson
+
+/-- field mode: `NoLfNulOpt` -/
+theorem Canon.NoLfNul.fields {K : Canon} (h : K.NoLfNul) (hmode : K.mode = .f ∨ K.mode = .dflt) :
+    NoLfNulOpt (optOf K.table) where
+  delimiter := by
+    have hbt : boundsTypeOf K.table.mode = .fields := by
+      rw [K.tableMode]; rcases hmode with hm | hm <;> rw [hm] <;> rfl
+    have : (optOf K.table).delimiter = (match K.d with | Option.some x => utf8 x | none => [9]) := by
+      show (if boundsTypeOf K.table.mode = .lines then _ else if boundsTypeOf K.table.mode = .fields then
+        (match K.d with | Option.some x => utf8 x | none => [9]) else []) = _
+      rw [hbt]; rfl
+    rw [this]
+    cases hd : K.d with
+    | none => decide
+    | some x => exact h.d x hd
+  replace := h.replace
+  fallbackOob := h.fallbackOob
+  fillers := h.fillers
+  fallbacks := h.fallbacks
+  noRegex := rfl
+  noJson := h.noJson
+  notChars := by
+    show boundsTypeOf K.table.mode ≠ .characters
+    rw [K.tableMode]; rcases hmode with hm | hm <;> rw [hm] <;> decide
+
+/-- `-c`: `NoLfNulChars` for the `Opt` with the `\b|\B` bag -/
+theorem Canon.NoLfNul.chars {K : Canon} (h : K.NoLfNul) (hmode : K.mode = .c) :
+    NoLfNulChars { optOf K.table with regexBag := Option.some charsBag } where
+  delimiter := by
+    have hbt : boundsTypeOf K.table.mode = .characters := by rw [K.tableMode, hmode]; rfl
+    show Tuc.NoLfNul (if boundsTypeOf K.table.mode = .lines then _ else if boundsTypeOf K.table.mode = .fields then
+        (match K.table.val .d with | Option.some x => utf8 x | none => [9]) else [])
+    rw [hbt]
+    intro b hb; simp at hb
+  replace := h.replace
+  fallbackOob := h.fallbackOob
+  fillers := h.fillers
+  fallbacks := h.fallbacks
+  bag := rfl
+  noJson := h.noJson
+
+theorem Canon.regexText_noRegex (K : Canon) (hc : K.mode ≠ .c) (he : K.e = none) :
+    K.table.regexText = none := by
+  unfold Table.regexText
+  rw [K.tableMode, if_neg hc]
+  exact he
+
+theorem tucRun_swap_noRegex {o o' : Opt} (fm : Bool) (segs : List Bytes)
+    (hbt : o.boundsType ≠ .characters) (hbt' : o'.boundsType ≠ .characters)
+    (hb : o.regexBag = none) (hb' : o'.regexBag = none)
+    (hd : dispatch o' fm (segs.map swap) = (dispatch o fm segs).map (Run.mapOut swap)) :
+    tucRun o' fm none (segs.map swap) = (tucRun o fm none segs).mapOut swap := by
+  rw [tucRun_noRegex _ _ _ hbt' hb', tucRun_noRegex _ _ _ hbt hb, MainResult.mapOut_ofDispatch, hd]
+
+/-- C11 for the body of `main` on the `Opt`s of `K` and of `K` with `-z` toggled, all four modes,
+    with or without `-M` -/
+theorem tucRun_canon_swap (K : Canon) (hdom : K.NoLfNul) (fm : Bool) (segs : List Bytes) :
+    tucRun (optOf K.toggleZ.table) fm K.table.regexText (segs.map swap) =
+      (tucRun (optOf K.table) fm K.table.regexText segs).mapOut swap := by
+  have hbt : (optOf K.table).boundsType = boundsTypeOf K.mode := by
+    show boundsTypeOf K.table.mode = _
+    rw [K.tableMode]
+  cases hm : K.mode with
+  | f =>
+    rw [hm] at hbt
+    rw [K.regexText_noRegex (by rw [hm]; decide) hdom.noRegex, K.optOf_toggleZ (by rw [hm]; decide)]
+    exact tucRun_swap_noRegex fm segs (by rw [hbt]; decide) (by show (optOf K.table).boundsType ≠ _; rw [hbt]; decide)
+      rfl rfl (dispatch_swap_fields (hdom.fields (Or.inl hm)) hbt fm segs)
+  | dflt =>
+    rw [hm] at hbt
+    rw [K.regexText_noRegex (by rw [hm]; decide) hdom.noRegex, K.optOf_toggleZ (by rw [hm]; decide)]
+    exact tucRun_swap_noRegex fm segs (by rw [hbt]; decide) (by show (optOf K.table).boundsType ≠ _; rw [hbt]; decide)
+      rfl rfl (dispatch_swap_fields (hdom.fields (Or.inr hm)) hbt fm segs)
+  | b =>
+    rw [hm] at hbt
+    rw [K.regexText_noRegex (by rw [hm]; decide) hdom.noRegex, K.optOf_toggleZ (by rw [hm]; decide)]
+    exact tucRun_swap_noRegex fm segs (by rw [hbt]; decide) (by show (optOf K.table).boundsType ≠ _; rw [hbt]; decide)
+      rfl rfl (dispatch_swap_bytes hdom.lits hbt fm segs)
+  | l =>
+    rw [hm] at hbt
+    rw [K.regexText_noRegex (by rw [hm]; decide) hdom.noRegex, K.optOf_toggleZ_lines hm]
+    exact tucRun_swap_noRegex fm segs (by rw [hbt]; decide) (by show (optOf K.table).boundsType ≠ _; rw [hbt]; decide)
+      rfl rfl (dispatch_swap_lines hdom.lits hbt fm segs)
+  | c =>
+    rw [hm] at hbt
+    rw [K.optOf_toggleZ (by rw [hm]; decide), tucRun_charsMode _ _ _ _ hbt,
+      tucRun_charsMode (optOf K.table).swapped _ _ _ hbt, swap_flatten, validUtf8_swap]
+    cases validUtf8 segs.flatten with
+    | false => rfl
+    | true =>
+      simp only [if_true]
+      rw [MainResult.mapOut_ofDispatch]
+      exact congrArg MainResult.ofDispatch (dispatch_swap_chars (hdom.chars hm) hbt fm segs)
+
+/-- **C11 at the level of the program, for canonical command lines — all four modes (`-f`/default,
+    `-c`, `-b`, `-l`), with or without `-M`, every read segmentation.**  Let `K` be accepted, let
+    the texts on the command line contain neither LF nor NUL, without `--json` and `-e`
+    (`K.NoLfNul`: the domain of the C11 theorems), and let `K.toggleZ` be `K` with `-z` added or
+    removed (and something left on the command line).  Then `tuc` with the toggled command line
+    on the input with LF and NUL exchanged (in every read) does what `tuc` with the original
+    command line does on the original input, with LF and NUL exchanged in the output: the same
+    outcome (rejection, failure …), the same exit status, the swapped bytes.
+
+    Lifts `readAndCutStr_swap`, `readAndCutFast_swap` (via `fieldMode_fast_swap`),
+    `cutBytesStream_swap` (via `fieldMode_stream_swap`), `readAndCutStr_swap_chars` and
+    `readAndCutLines_swap` (C11), plus `readAndCutBytes_swap` above for `-b`; composes them with
+    `parseArgv_canonArgv` on both command lines. -/
+theorem tucMain_swap (regexOk : Arg → Bool) (K : Canon) (hK : K.Accepted regexOk)
+    (hne : canonArgv K.toggleZ ≠ []) (hdom : K.NoLfNul) (segs : List Bytes) :
+    tucMain regexOk (canonArgv K.toggleZ) (segs.map swap) =
+      (tucMain regexOk (canonArgv K) segs).mapOut swap := by
+  rw [(hK.toggleZ hne).main, hK.main, K.toggleZ_memKb, K.toggleZ_regexText]
+  exact tucRun_canon_swap K hdom _ segs
+
+/-- `tuc -f 2,1 -d :` -/
+def exSwap : Canon := { mode := .f, bounds := ['2', ',', '1'], d := Option.some [':'] }
+
+theorem exSwap_accepted : exSwap.Accepted (fun _ => true) where
+  clean := by decide +kernel
+  sensible := ⟨by decide +kernel, rfl, rfl, by simp [Canon.table, exSwap], by decide +kernel,
+    by simp [Canon.table, exSwap], by simp [Canon.table, exSwap], by simp, rfl⟩
+  noConflict := by decide +kernel
+
+theorem exSwap_noLfNul : exSwap.NoLfNul where
+  d := by intro x hx; cases hx; decide +kernel
+  r := by intro x hx; cases hx
+  fallback := by intro x hx; cases hx
+  fillers := by
+    intro f hf
+    have : exSwap.table.bounds.list = [.bound { l := .some 2, r := .some 2 },
+        .bound { l := .some 1, r := .some 1, isLast := true }] := by decide +kernel
+    rw [this] at hf; simp at hf
+  fallbacks := by
+    intro b f hb hf
+    have : exSwap.table.bounds.list = [.bound { l := .some 2, r := .some 2 },
+        .bound { l := .some 1, r := .some 1, isLast := true }] := by decide +kernel
+    rw [this] at hb
+    simp at hb
+    rcases hb with rfl | rfl <;> cases hf
+  noJson := rfl
+  noRegex := rfl
+
+/-- `tuc -f 2,1 -d : -z` on `a:b␀` `c:d␀` against `tuc -f 2,1 -d :` on `a:b⏎` `c:d⏎` -/
+example :
+    tucMain (fun _ => true) (canonArgv exSwap.toggleZ) ([[97, 58, 98, 10], [99, 58, 100, 10]].map swap) =
+      (tucMain (fun _ => true) (canonArgv exSwap) [[97, 58, 98, 10], [99, 58, 100, 10]]).mapOut swap :=
+  tucMain_swap _ exSwap exSwap_accepted (by decide +kernel) exSwap_noLfNul _
+
+example :
+    canonArgv exSwap.toggleZ = [['-', 'f'], ['2', ',', '1'], ['-', 'd'], [':'], ['-', 'z']] ∧
+    [[97, 58, 98, 10], [99, 58, 100, 10]].map swap = [[97, 58, 98, 0], [99, 58, 100, 0]] ∧
+    tucMain (fun _ => true) (canonArgv exSwap) [[97, 58, 98, 10], [99, 58, 100, 10]] =
+      .run (Run.ok [98, 97, 10, 100, 99, 10]) ∧
+    tucMain (fun _ => true) (canonArgv exSwap.toggleZ) [[97, 58, 98, 0], [99, 58, 100, 0]] =
+      .run (Run.ok [98, 97, 0, 100, 99, 0]) := by
+  decide +kernel
+
+/-- the side condition `hne`: `tuc -z` cuts (`-f 1:`), `tuc` without arguments prints the help -/
+example :
+    tucMain (fun _ => true) (canonArgv { z := true }) [[97, 0]] = .run (Run.ok [97, 0]) ∧
+    tucMain (fun _ => true) (canonArgv ({ z := true } : Canon).toggleZ) [[97, 10]] = .help := by
+  decide +kernel
+
+/-- `tuc -l 2,1 --no-join` (the buffered algorithm; in line mode `-z` also changes the delimiter) -/
+def exSwapLines : Canon := { mode := .l, bounds := ['2', ',', '1'], noJoin := true }
+
+theorem exSwapLines_accepted : exSwapLines.Accepted (fun _ => true) where
+  clean := by decide +kernel
+  sensible := ⟨by decide +kernel, rfl, rfl, by simp [Canon.table, exSwapLines], by decide +kernel,
+    by simp [Canon.table, exSwapLines], by simp [Canon.table, exSwapLines], by simp, rfl⟩
+  noConflict := by decide +kernel
+
+theorem exSwapLines_noLfNul : exSwapLines.NoLfNul where
+  d := by intro x hx; cases hx
+  r := by intro x hx; cases hx
+  fallback := by intro x hx; cases hx
+  fillers := by
+    intro f hf
+    have : exSwapLines.table.bounds.list = [.bound { l := .some 2, r := .some 2 },
+        .bound { l := .some 1, r := .some 1, isLast := true }] := by decide +kernel
+    rw [this] at hf; simp at hf
+  fallbacks := by
+    intro b f hb hf
+    have : exSwapLines.table.bounds.list = [.bound { l := .some 2, r := .some 2 },
+        .bound { l := .some 1, r := .some 1, isLast := true }] := by decide +kernel
+    rw [this] at hb
+    simp at hb
+    rcases hb with rfl | rfl <;> cases hf
+  noJson := rfl
+  noRegex := rfl
+
+example (segs : List Bytes) :
+    tucMain (fun _ => true) (canonArgv exSwapLines.toggleZ) (segs.map swap) =
+      (tucMain (fun _ => true) (canonArgv exSwapLines) segs).mapOut swap :=
+  tucMain_swap _ exSwapLines exSwapLines_accepted (by decide +kernel) exSwapLines_noLfNul segs
+
+example :
+    tucMain (fun _ => true) (canonArgv exSwapLines) [[97, 10, 98], [10]] = .run (Run.ok [98, 97, 10]) ∧
+    tucMain (fun _ => true) (canonArgv exSwapLines.toggleZ) [[97, 0, 98], [0]] = .run (Run.ok [98, 97, 0]) := by
+  decide +kernel
 
 end Tuc
